@@ -128,7 +128,7 @@ static std::vector<Job> make_jobs(Tier t)
 	struct Alpha { const char *name; std::vector<std::string> paths; std::vector<int> vals; int dquick; bool pairs; };
 	std::vector<Alpha> alphas = {
 		{ "chain",    { "a", "a.b", "a.b.c", "a.c" },               { V_X, V_YY }, 4, false },
-		{ "siblings", { "a", "ab", "b", "a.b", "b.a" },             { V_X, V_YY }, 3, false },
+		{ "siblings", { "a", "ab", "b", "a.b", "b.a" },             { V_X },       4, false },
 		{ "empty",    { "''", "a.", ".a", "a..b", "a" },            { V_X, V_YY }, 3, false },
 		{ "repeat",   { "a", "a.a", "a.a.a", "b.b" },               { V_X, V_YY }, 4, false },
 		{ "sep",      { "a.b", "a/b", "a/b.c", "a.b.c", "a.b=q" },  { V_X, V_YY }, 3, false },
@@ -136,7 +136,7 @@ static std::vector<Job> make_jobs(Tier t)
 		{ "endchar",  { "c", "c(end==)", "b", "b=" },               { V_X, V_YY }, 3, false },
 		{ "three",    { "a", "b", "c" },                            { V_X },       5, false },
 		{ "len-s",    { "k11", "k12", "k19", "k20" },               { V_X },       4, false },
-		{ "len-l",    { "k211", "k212", "k254", "k255", "k256", "k300" }, { V_X }, 3, false },
+		{ "len-l",    { "k211", "k212", "k255", "k256", "k300" }, { V_X }, 3, false },
 		{ "len-n",    { "a", "a.k255", "a.k256", "k255.a", "k256.a" }, { V_X },    3, false },
 		{ "values",   { "a", "a.b" },                               { V_X, V_EMPTY, V_249, V_250, V_255, V_300 }, 3, false },
 		{ "alias-s",  { "a", "a.b", "b" },                          { V_X, V_YY }, 3, true },
